@@ -393,7 +393,7 @@ def et_device_info(ex):
     g = ghost(ex)
     g.allow_failures = True
     g.allow_other_rejections = True
-    ex.inputs = {}
+    ex.inputs = {"family": "ET", "method": "read_device_info", "args": [], "script": g.script, "variant": 0}
     try:
         run_coro(ex, inv.read_device_info)
     except PyRaise as pr:
@@ -465,7 +465,7 @@ def dt_device_info(ex):
     g = ghost(ex)
     g.allow_failures = True
     g.allow_other_rejections = True
-    ex.inputs = {}
+    ex.inputs = {"family": "DT", "method": "read_device_info", "args": [], "script": g.script, "variant": 0}
     try:
         run_coro(ex, inv.read_device_info)
     except PyRaise as pr:
@@ -515,7 +515,7 @@ def es_device_info(ex):
     g = ghost(ex)
     g.allow_failures = True
     g.allow_other_rejections = True
-    ex.inputs = {}
+    ex.inputs = {"family": "ES", "method": "read_device_info", "args": [], "script": g.script, "variant": 0}
     try:
         run_coro(ex, inv.read_device_info)
     except PyRaise as pr:
